@@ -192,4 +192,22 @@ CLAIMED = {
         note="Not decided: panic-freedom of indexing/arithmetic sites, termination. The rule found a genuine defect (doctor debug_assert on pending WAL records), repaired by fix commit 706186b. "
              "Untriaged candidate: debug_assert_eq on vector lengths in simd (debug builds only).",
         design_ref="DESIGN.md §4 C22"),
+    "C27": dict(
+        technique="sibling agreement on normalised HIR trees (alpha-renamed closures) + stage-set comparison + wrapper argument flow",
+        text="Partial (sibling agreement): get_at_time equals get_current plus exactly one stage - filter(effective_timestamp() <= timestamp) over all cards before the ordering; both "
+             "use the same descending effective_timestamp comparator and the same !is_retracted selection; the Memvid wrappers pass their own arguments through.",
+        note="Not decided: persistence round-trip of cards and logic mesh (values). Structural comparison fails closed if the two functions are rewritten with a mechanism the rule does not recognise.",
+        design_ref="DESIGN.md §4 C27"),
+    "C31": dict(
+        technique="MIR dominance / edge-cut reachability in find_last_valid_footer + data-dependence of the hashed slice, returned slice and offsets + monotone-scan shape",
+        text="Partial: a FooterSlice is returned only past decode(Some) of bytes[pos..pos+FOOTER_SIZE], the toc_len bounds edges and the hash_matches true edge over exactly "
+             "bytes[pos - toc_len .. pos], which is also the slice returned; the scan uses memrchr over bytes[..search_end] and every path back to it sets search_end = pos.",
+        note="Not decided: the loop-invariant argument that the first accepted candidate ends at the highest offset, beyond these shape facts.",
+        design_ref="DESIGN.md §4 C31"),
+    "C39": dict(
+        technique="expression-family agreement of Bloom bit positions (shift constants), shared tokenizer/hash reachability, writer/reader field-coverage analysis of the sketch track",
+        text="Partial: probe bit positions are a subset of written positions with the same addressing; index and query sides share tokenize_for_sketch and hash_token; every "
+             "SketchEntry field the track reader reconstructs must come from written bytes (a field synthesised from the loop index requires a dense writer); header widths agree.",
+        note="Not decided: filter false-positive behaviour, simhash values. Known finding (open): frame_id is not serialised and is rebuilt from the entry position.",
+        design_ref="DESIGN.md §4 C39"),
 }
